@@ -236,7 +236,7 @@ def explore(ctx, escalate=False, hint=None):
             'encoding/line_endings/format/version (catalogue), header damage, CRLF mixing, truncation, byte insert/'
             'replace/delete, line delete/dup/swap/blank, hostile JSON bodies, spliced headers; + %d random byte / token '
             'soups. compared: records + exception class + (linenum, column) model vs implementation; oracle: only '
-            'DiffXParseError, position inside the input, message prefix, DOM error family, stream closed; + valid metadata nested 150 … 100000 levels through reader and object model. '
+            'DiffXParseError, position inside the input, message prefix, DOM error family, stream closed; + valid metadata nested 150 … 100000 levels and runs of 500 … 200000 blank lines through reader and object model. '
             'distinct by (outcome, #records, input)' % budget)
     res = base.explore_generic(ctx, Spec(ctx.tables), budget, rule, chunk=2000)
     vs = deep_probe()
@@ -247,9 +247,22 @@ def explore(ctx, escalate=False, hint=None):
 
 DEEP = [(d, kind, where) for d in (150, 300, 450, 600, 750, 900, 1200, 2000, 100000)
         for kind in ('dict', 'list') for where in ('main', 'file')]
+# long runs of blank lines where a header is expected (between sections, at the end, before a
+# damaged header), LF and CRLF
+DEEP += [(d, kind, where) for d in (500, 990, 1100, 5000, 200000) for kind in ('blank', 'blank-crlf')
+         for where in ('between', 'end', 'before-bad')]
 
 
 def deep_file(depth, kind, where):
+    if kind.startswith('blank'):
+        nl = b'\r\n' if kind == 'blank-crlf' else b'\n'
+        head = b'#diffx: encoding=utf-8, version=1.0' + nl + b'#.change:' + nl
+        tail = b'#..file:' + nl + b'#...meta: length=3' + nl + b'{}\n'
+        if where == 'between':
+            return head + nl * depth + tail
+        if where == 'end':
+            return head + tail + nl * depth
+        return head + nl * depth + b'#..fil:' + nl
     body = (b'{"a": ' * depth + b'1' + b'}' * depth) if kind == 'dict' else (b'{"a": ' + b'[' * depth + b']' * depth + b'}')
     meta = b'length=%d\n' % (len(body) + 1) + body + b'\n'
     if where == 'main':
@@ -274,14 +287,14 @@ def deep_probe():
         except DiffXParseError:
             pass
         except BaseException as e:   # noqa
-            out.append({'what': 'exception %s escapes the reader on metadata nested %d levels (%s, %s section)'
+            out.append({'what': 'exception %s escapes the reader on a file with depth / run length %d (%s, %s)'
                                 % (type(e).__name__, depth, kind, where), 'kind': 'reader', 'deep': [depth, kind, where]})
         try:
             DiffX.from_bytes(data)
         except BaseDiffXError:
             pass
         except BaseException as e:   # noqa
-            out.append({'what': 'DiffX.from_bytes raised %s (not a library error) on metadata nested %d levels (%s, %s section)'
+            out.append({'what': 'DiffX.from_bytes raised %s (not a library error) on a file with depth / run length %d (%s, %s)'
                                 % (type(e).__name__, depth, kind, where), 'kind': 'dom', 'deep': [depth, kind, where]})
     return out
 
